@@ -194,7 +194,12 @@ impl Watch {
                 if frame.len() > l as usize {
                     self.stats.hit("c14_oversize_received");
                     let disc = sends.iter().any(|p| p.kind == DISCONNECT && p.rc == Some(0x95));
-                    if !delivered.is_empty() || !errored || (st_before == St::Connected && !disc) {
+                    // the answer itself must fit the peer's limit (the first clause of C14 wins
+                    // where the two meet: a peer limit of 2 leaves no room for any DISCONNECT)
+                    let mut d = Pkt::new(5, DISCONNECT);
+                    d.rc = Some(0x95);
+                    let answer_fits = self.m.mps_send.map_or(true, |m| wire::encode(&d, self.idw).len() <= m as usize);
+                    if !delivered.is_empty() || !errored || (st_before == St::Connected && answer_fits && !disc) {
                         self.flag(&["C14"], "oversize-received-not-rejected", format!("{what}: {} bytes exceed the local Maximum Packet Size {l}: {}", frame.len(), evs_short(evs)));
                         return;
                     }
@@ -233,6 +238,10 @@ impl Watch {
         if !role_may_recv(self.role, v_eff, kind) {
             self.stats.hit("c17_forbidden_kind");
             let proto = evs.iter().any(|e| e.err_code() == Some(E_PROTOCOL)) || (kind == 0 || (kind == AUTH && v_eff == 4)) && errored;
+            if evs.iter().any(|e| matches!(e, Ev::TimerReset(..))) {
+                self.flag(&["C17", "C15"], format!("forbidden-kind-acted-upon/{}", kind_name(kind)), format!("{what}: a packet this role may never receive re-armed a timer: {}", evs_short(evs)));
+                return;
+            }
             if !delivered.is_empty() || !proto || !sends.iter().all(|p| p.kind == DISCONNECT) {
                 self.flag(&["C17"], format!("forbidden-kind-accepted/{}", kind_name(kind)), format!("{what}: role {:?} v{} must report a protocol error and not deliver or act: {}", self.role, v_eff, evs_short(evs)));
                 return;
